@@ -17,11 +17,12 @@ const (
 	eOK               // executed and its error was tested nil (or it has no error result: "done")
 	eFail             // executed and its error was tested non-nil
 	eUnk              // executed, but the error variable was overwritten / not bound
+	eRet              // executed as the operand of a return statement: its error is the function's result
 )
 
 func evBitsString(b uint8) string {
 	var out []string
-	for i, n := range []string{"not-executed", "error-untested", "succeeded", "failed", "executed-error-unknown"} {
+	for i, n := range []string{"not-executed", "error-untested", "succeeded", "failed", "executed-error-unknown", "returned-directly"} {
 		if b&(1<<i) != 0 {
 			out = append(out, n)
 		}
@@ -172,6 +173,18 @@ func newE3(p *Prog, fn *Fn, evs []Ev) *E3 {
 					}
 					matched[i] = true
 					obj, hasErr := boundErrVar(info, nc.site, nc.call)
+					if ret, isRet := nc.site.(*ast.ReturnStmt); isRet && hasErr {
+						direct := false
+						for _, r := range ret.Results {
+							if unparen(r) == nc.call {
+								direct = true
+							}
+						}
+						if direct {
+							s.bits[i], s.errs[i] = eRet, nil
+							continue
+						}
+					}
 					switch {
 					case !hasErr:
 						s.bits[i], s.errs[i] = eOK, nil
